@@ -2,6 +2,7 @@ pub mod c01;
 pub mod c02;
 pub mod c03;
 pub mod c04;
+pub mod c09;
 pub mod c10;
 pub mod c11;
 pub mod c13;
@@ -18,6 +19,7 @@ pub fn run(env: &Env) -> Option<i32> {
         "C03" => c03::run_c03(env),
         "C04" => c04::run(env),
         "C05" | "C06" | "C07" | "C08" => detectors::run(env),
+        "C09" => c09::run(env),
         "C10" => c10::run(env),
         "C11" => c11::run_c11(env),
         "C12" => c11::run_c12(env),
@@ -34,6 +36,7 @@ pub fn replay(env: &Env, check: &str, case: &Value, st: &mut Stats) -> Option<Ve
         "C03" | "C16" => c03::replay(env, check, case, st),
         "C04" => c04::replay(env, check, case, st),
         "C05" | "C06" | "C07" | "C08" => detectors::replay(env, check, case, st),
+        "C09" => c09::replay(env, check, case, st),
         "C10" => c10::replay(env, check, case, st),
         "C11" | "C12" => c11::replay(env, check, case, st),
         "C13" => c13::replay(env, check, case, st),
